@@ -282,6 +282,17 @@ pub fn c01_key(f: &Finding, p: &Program, _o: &Outcome) -> Option<String> {
             if dup_in_select && !f.msg.contains(crate::relcheck::MERGED_MARK) {
                 return Some("same-name-twice-in-select-merged".into());
             }
+            // an alias re-using a column name of a relation known only through its wildcard, then a group whose
+            // pipeline does not aggregate: the frame is key ++ rest, the statement returns `*` first (same values,
+            // other column order)
+            if shadowing_alias(p) && f.sql.starts_with("SELECT *,") && has(&sp, |s| matches!(s, Step::Group { inner, .. } if !inner.iter().any(|x| matches!(x, Step::Aggregate(_) | Step::Take(..))))) {
+                if let Some((exp, got)) = &f.rows {
+                    let sorted = |r: &Vec<crate::model::V>| { let mut v: Vec<String> = r.iter().map(|x| x.show()).collect(); v.sort(); v };
+                    if exp.len() == got.len() && exp.iter().zip(got).all(|(a, b)| sorted(a) == sorted(b)) {
+                        return Some("group-key-not-first-behind-wildcard-with-shadowing-alias".into());
+                    }
+                }
+            }
             // an alias re-using a column name next to a wildcard: the wildcard's column and a helper come back
             if shadowing_alias(p) && f.sql.contains("_expr_") && f.sql.contains("SELECT *") {
                 return Some("column-lost-when-alias-reuses-existing-name".into());
